@@ -144,6 +144,28 @@ fn main() {
                 println!("scr: {}", vengine::model::xtree::XTree::build(&t3).render(&l.language, 400));
                 return;
             }
+            "--query" => {
+                // debug: vcheck --query <lang> <file> <query>
+                use streaming_iterator::StreamingIterator;
+                let l = vengine::lang::zoo(&args[i + 1]);
+                let bytes = std::fs::read(&args[i + 2]).unwrap();
+                let mut p = tree_sitter::Parser::new();
+                p.set_language(&l.language).unwrap();
+                let tree = p.parse(&bytes, None).unwrap();
+                println!("{}", vengine::model::xtree::XTree::build(&tree).render(&l.language, 200));
+                match tree_sitter::Query::new(&l.language, &args[i + 3]) {
+                    Err(e) => println!("query error: {e:?}"),
+                    Ok(q) => {
+                        let mut c = tree_sitter::QueryCursor::new();
+                        let mut ms = c.matches(&q, tree.root_node(), bytes.as_slice());
+                        while let Some(m) = ms.next() {
+                            let caps: Vec<String> = m.captures.iter().map(|c| format!("@{}={}[{}..{}]", q.capture_names()[c.index as usize], c.node.kind(), c.node.start_byte(), c.node.end_byte())).collect();
+                            println!("match pattern {} id {}: {}", m.pattern_index, m.id(), caps.join(" "));
+                        }
+                    }
+                }
+                return;
+            }
             "--list" => {
                 for c in checks::registry() {
                     println!("{}", c.id());
